@@ -36,7 +36,7 @@ KMAX = 16
 
 def program_strategy(cfg, cache):
     from hypothesis import strategies as _st
-    return gen.weighted([(3, gen.program(cfg, cache)), (1, gen.ancestor_pattern_program(cfg, cache))])
+    return gen.weighted([(2, gen.program(cfg, cache)), (1, gen.ancestor_pattern_program(cfg, cache))])
 
 
 def drive(draw, h, cfg):
@@ -54,7 +54,7 @@ def drive(draw, h, cfg):
             for _ in range(draw(st.integers(1, 3))):
                 h.failures.extend(h.apply(histprop.draw_ext(draw, h, univ)))
             anc = [s_[1] for s_ in h.prog_rel['root'] if s_[0] == 'bf' and s_[2] == 'f0'] if 'alt_roots' in h.prog_rel else []
-            if anc and draw(st.booleans()):
+            if anc and draw(st.sampled_from(range(4))):
                 # ancestor pattern: the recorded output F (an ancestor path of the other target) is stale, so the crashing
                 # build rebuilds it before it requests the path below it
                 h.failures.extend(h.apply([draw(st.sampled_from(['touch', 'write'])), anc[0], 1]))
